@@ -159,6 +159,17 @@ pub fn requests(thorough: bool) -> Vec<(String, Value)> {
         }
     }
     add("datehist_offset", json!({"d": {"date_histogram": {"field": "date", "fixed_interval": "1d", "offset": "-4h"}}}));
+    // disjoint ranges with several gaps (values falling into the second and third gap), open ends
+    for field in ["val", "n"] {
+        // (integer bounds: the integer column rejects fractional ones)
+        add(&format!("range_gaps_{field}"), json!({"r": {"range": {"field": field, "ranges": [{"from": -3.0, "to": -1.0}, {"from": 0.0, "to": 1.0}, {"from": 2.0, "to": 3.0}, {"from": 9.0, "to": 11.0}]}}}));
+        add(&format!("range_gaps_open_{field}"), json!({"r": {"range": {"field": field, "ranges": [{"to": -2.0}, {"from": -1.0, "to": 0.0}, {"from": 1.0, "to": 3.0}, {"from": 8.0}]}, "aggs": {"c": {"value_count": {"field": "n"}}}}}));
+    }
+    // terms whose per-partition counts stay below min_doc_count while the total reaches it
+    for mdc in [2, 3] {
+        add(&format!("terms_k_mdc{mdc}"), json!({"t": {"terms": {"field": "k", "size": 10, "segment_size": 10, "min_doc_count": mdc, "order": {"_key": "asc"}}}}));
+        add(&format!("terms_g_mdc{mdc}_sum"), json!({"t": {"terms": {"field": "g", "size": 10, "segment_size": 10, "min_doc_count": mdc, "order": {"_key": "asc"}}, "aggs": {"s": {"sum": {"field": "val"}}}}}));
+    }
     // zero-count buckets carrying sub-aggregations: a term without a hit in one partition
     add("terms_mdc0_filter_sum", json!({"t": {"terms": {"field": "k", "size": 10, "segment_size": 10, "min_doc_count": 0, "order": {"_key": "asc"}}, "aggs": {"f": {"filter": "txt:x", "aggs": {"s": {"sum": {"field": "val"}}}}}}}));
     add("terms_mdc0_avg", json!({"t": {"terms": {"field": "k", "size": 10, "segment_size": 10, "min_doc_count": 0, "order": {"_key": "asc"}}, "aggs": {"a": {"avg": {"field": "val"}}, "c": {"value_count": {"field": "n"}}}}}));
@@ -710,13 +721,26 @@ pub fn check(p: &Prepared, name: &str, req: &Value, qi: usize, st: &mut Stats) -
         // (c) the same split as separate indexes, intermediate results merged in every order / grouping
         let aggs: Aggregations = serde_json::from_value(req.clone()).ok()?;
         let orders: Vec<Vec<usize>> = if parts.len() == 2 { vec![vec![0, 1], vec![1, 0]] } else { vec![vec![0, 1, 2], vec![2, 1, 0], vec![1, 0, 2], vec![0, 2, 1]] };
+        // re-pruning a partition's result with the per-segment rules must not lose anything as long as every
+        // terms aggregation's segment_size covers all terms (true for all requests but the marked ones)
+        let prunable = !req.to_string().contains("\"segment_size\":2");
         for (oi, order) in orders.iter().enumerate() {
-            for rt in [false, true] {
+            for variant in 0..3u8 {
+                let rt = variant == 1;
+                if variant == 2 && !prunable {
+                    continue;
+                }
                 st.count("distributed_merges");
                 let mut inter: Vec<IntermediateAggregationResults> = vec![];
                 for &pi in order {
                     match run_intermediate(&parts[pi], req, q.as_ref()) {
-                        Ok(x) => inter.push(if rt {
+                        Ok(mut x) => inter.push(if variant == 2 {
+                            st.count("intermediate_prunes");
+                            if let Err(e) = x.prune_intermediate_results(&aggs, tantivy::aggregation::intermediate_agg_result::PruneMode::Intermediate) {
+                                return Some(("prune_error".into(), format!("{e:?}")));
+                            }
+                            x
+                        } else if rt {
                             match roundtrip(x) {
                                 Ok(y) => y,
                                 Err(e) => return Some(("intermediate_serialisation".into(), e)),
@@ -756,7 +780,7 @@ pub fn check(p: &Prepared, name: &str, req: &Value, qi: usize, st: &mut Stats) -
                 if let Err(e) = same_json(&fin, &reference, "") {
                     return Some((
                         "depends_on_partition".into(),
-                        format!("documents split into separate indexes {segs:?}, merged in order {order:?}{}: {e}", if rt { " after a postcard round trip" } else { "" }),
+                        format!("documents split into separate indexes {segs:?}, merged in order {order:?}{}: {e}", match variant { 1 => " after a postcard round trip", 2 => " after prune_intermediate_results(Intermediate) on every part", _ => "" }),
                     ));
                 }
             }
